@@ -46,25 +46,28 @@ const kCalls = 10 // K of the property: success within K consecutive calls
 
 // Scn is one scenario (= one case).
 type Scn struct {
-	Class     string `json:"class"`  // loss class: idle|mid-write|awaiting-reply|during-redial|repeated|exhausted
-	Budget    int    `json:"budget"` // RedialTimes: 0, n, -1
-	Hook      string `json:"hook"`   // plain (no I/O) | handshake (PreCall answered by a PostAccept plug-in)
-	UserID    bool   `json:"user_id"`
-	Base      string `json:"base"`           // state at the loss: idle|awaiting|mid-write|big-write
-	NCalls    int    `json:"n_calls"`        // calls awaiting the parked handler
-	Dir       string `json:"dir,omitempty"`  // mid-write: c2s (request) | s2c (reply)
-	K         int    `json:"k"`              // mid-write: bytes forwarded before the cut (-1: the whole frame); big-write: KiB
-	KClass    string `json:"k_class"`        // structural class of K
-	RST       bool   `json:"rst"`            // reset instead of orderly close
-	Refuse    int    `json:"refuse"`         // attempts refused after the loss: 0, m, -1 = the server stays down
-	Mode      string `json:"refuse_mode"`    // reject (accept+close at the forwarder) | down (listening port closed)
-	Script    string `json:"script"`         // gate script, "" = none
-	Writer    string `json:"writer"`         // call|push: operation racing the reader / the later operation
-	Losses    int    `json:"losses"`         // number of losses (repeated)
-	Second    bool   `json:"second_session"` // afterwards a second session is dialed from the same client peer and must survive one loss
-	Detector  string `json:"detector"`       // reader|writer|both|-
-	DelaySeed int64  `json:"delay_seed"`     // gate delay perturbation
-	DelayP    int    `json:"delay_permille"` //
+	Class         string `json:"class"`  // loss class: idle|mid-write|awaiting-reply|during-redial|repeated|exhausted
+	Budget        int    `json:"budget"` // RedialTimes: 0, n, -1
+	Hook          string `json:"hook"`   // plain (no I/O) | handshake (PreCall answered by a PostAccept plug-in)
+	UserID        bool   `json:"user_id"`
+	Base          string `json:"base"`                      // state at the loss: idle|awaiting|mid-write|big-write
+	NCalls        int    `json:"n_calls"`                   // calls awaiting the parked handler
+	Dir           string `json:"dir,omitempty"`             // mid-write: c2s (request) | s2c (reply)
+	K             int    `json:"k"`                         // mid-write: bytes forwarded before the cut (-1: the whole frame); big-write: KiB
+	KClass        string `json:"k_class"`                   // structural class of K
+	RST           bool   `json:"rst"`                       // reset instead of orderly close
+	Refuse        int    `json:"refuse"`                    // attempts refused after the loss: 0, m, -1 = the server stays down
+	Mode          string `json:"refuse_mode"`               // reject (accept+close at the forwarder) | down (listening port closed)
+	Script        string `json:"script"`                    // gate script, "" = none
+	Writer        string `json:"writer"`                    // call|push: operation racing the reader / the later operation
+	Losses        int    `json:"losses"`                    // number of losses (repeated)
+	DialTimeoutMs int    `json:"dial_timeout_ms,omitempty"` // PeerConfig.DialTimeout; 0 = the harness default of 5 s
+	Timed         bool   `json:"timed_outage,omitempty"`    // the outage lasts longer than DialTimeout (wall clock) but only part of the budget (attempts)
+	IntervalMs    int    `json:"interval_ms,omitempty"`     // timed outages: PeerConfig.RedialInterval; 0 = not set (the configuration default of 100 ms)
+	Second        bool   `json:"second_session"`            // afterwards a second session is dialed from the same client peer and must survive one loss
+	Detector      string `json:"detector"`                  // reader|writer|both|-
+	DelaySeed     int64  `json:"delay_seed"`                // gate delay perturbation
+	DelayP        int    `json:"delay_permille"`            //
 }
 
 func (s Scn) budgetClass() string {
@@ -89,6 +92,12 @@ func (s Scn) sig() string {
 	}
 	if s.Second {
 		sig += "/second-session"
+	}
+	if s.DialTimeoutMs > 0 {
+		sig += fmt.Sprintf("/dial-timeout=%dms", s.DialTimeoutMs)
+	}
+	if s.Timed {
+		sig += fmt.Sprintf("/outage-outlasts-dial-timeout-%s/interval=%dms", s.Mode, s.IntervalMs)
 	}
 	return sig
 }
@@ -404,7 +413,14 @@ func (e *env) setup() error {
 	if sc.UserID {
 		e.hook.userID = "c13-user-" + e.id
 	}
-	e.cli = erpc.NewPeer(erpc.PeerConfig{RedialTimes: int32(sc.Budget), RedialInterval: time.Millisecond, DialTimeout: 5 * time.Second}, e.hook)
+	cfg := erpc.PeerConfig{RedialTimes: int32(sc.Budget), RedialInterval: time.Millisecond, DialTimeout: 5 * time.Second}
+	if sc.DialTimeoutMs > 0 {
+		cfg.DialTimeout = time.Duration(sc.DialTimeoutMs) * time.Millisecond
+	}
+	if sc.Timed {
+		cfg.RedialInterval = time.Duration(sc.IntervalMs) * time.Millisecond // 0: the configuration's default (100 ms)
+	}
+	e.cli = erpc.NewPeer(cfg, e.hook)
 	envs.Store(e.cli, e)
 	e.cliNote = e.cli.RoutePushFunc(HCliNote)
 	sess, st := e.cli.Dial(e.fw.Addr())
@@ -904,6 +920,10 @@ func (e *env) run() {
 	}
 	for round := 0; round < losses; round++ {
 		hooksBefore := len(e.hook.snapshot())
+		if sc.Timed {
+			e.timedOutage(hooksBefore, id0)
+			return
+		}
 		inflight := e.loss(round)
 		if e.incon != "" {
 			return
@@ -933,6 +953,107 @@ func (e *env) run() {
 	if sc.Second {
 		e.secondSession()
 	}
+}
+
+// timedOutage: the connection is lost and the server stays unreachable for longer than DialTimeout
+// (wall clock, only to make the outage outlast the timeout), but for only a part of the redial budget
+// counted in attempts. DialTimeout bounds one dial attempt, not the round: the session must still be
+// redialing when the server is back, reach it with its next attempt and carry on. The verdict is on
+// attempts (retries the dialer had consumed when the server was back, attempts seen by the forwarder)
+// against the budget; if the budget was already used up by attempts, the case is inconclusive.
+func (e *env) timedOutage(hooksBefore int, id0 string) {
+	sc := e.sc
+	pipe := e.fw.Current()
+	if pipe == nil || pipe.Dead() {
+		e.inconclusive("no live forwarded connection before the loss")
+		return
+	}
+	var inflight []*op
+	if sc.Base == "awaiting" {
+		atomic.StoreInt32(&e.entered, 0)
+		for i := 0; i < sc.NCalls; i++ {
+			inflight = append(inflight, e.start("park", "inflight"))
+		}
+		if !bed.WaitUntil(gateWait, func() bool { return atomic.LoadInt32(&e.entered) >= int32(sc.NCalls) }) {
+			e.inconclusive("parked handlers did not start")
+			return
+		}
+	}
+	obs.reset(nil)
+	if sc.Mode == "down" {
+		if err := e.fw.Down(); err != nil {
+			e.inconclusive("forwarder down: %v", err)
+			return
+		}
+	} else {
+		e.fw.Refuse(-1, sc.RST)
+	}
+	a0 := e.fw.Attempts()
+	e.markFault()
+	t0 := time.Now()
+	pipe.Drop(sc.RST)
+	core.Add("losses_injected", 1)
+	core.Add("timed_outages", 1)
+	// the only use of the wall clock: the outage certainly outlasts DialTimeout
+	dt := time.Duration(sc.DialTimeoutMs) * time.Millisecond
+	time.Sleep(2*dt + 150*time.Millisecond)
+	for time.Since(t0) < 2*dt+150*time.Millisecond {
+		time.Sleep(10 * time.Millisecond)
+	}
+	// the server is back
+	if sc.Mode == "down" {
+		if err := e.fw.Up(); err != nil {
+			e.inconclusive("forwarder up: %v", err)
+			return
+		}
+	} else {
+		e.fw.Refuse(0, false)
+	}
+	retriesAtUp := obs.count()      // retries the dialer had announced when the server was reachable again
+	attemptsAtUp := e.fw.Attempts() // attempts that had reached the forwarder by then
+	e.markFault()
+	core.Max("max_retries_consumed_during_timed_outage", int64(retriesAtUp))
+	budgetLeft := sc.Budget < 0 || retriesAtUp <= sc.Budget-2
+	if sc.Budget < 0 {
+		// an unlimited budget never gives up: wait for the reconnect; a dialer that keeps announcing
+		// retries none of which reaches the reachable server will never get there
+		deadline := time.Now().Add(30 * time.Second)
+		for !e.hookedLive(hooksBefore) {
+			if r := obs.count(); r >= retriesAtUp+50 && e.fw.Attempts() == attemptsAtUp {
+				e.violate("no-reconnect-while-reachable", "the server has been reachable again since the dialer's retry %d; the dialer has announced %d further retries (unlimited budget, DialTimeout %d ms) and not one connection attempt reached the forwarder (attempts seen: %d during the outage, 0 since): the session does not reconnect; status=%s",
+					retriesAtUp, r-retriesAtUp, sc.DialTimeoutMs, attemptsAtUp-a0, statusName(e.sess))
+				return
+			}
+			if time.Now().After(deadline) {
+				e.inconclusive("watchdog: no reconnect and fewer than 50 further retries after the server was back")
+				return
+			}
+			time.Sleep(2 * time.Millisecond)
+		}
+	}
+	q := qwait()
+	if !q.Quiescent {
+		e.inconclusive("watchdog: process not quiescent after the timed outage (%s)", strings.Join(briefStuck(q), " | "))
+		return
+	}
+	e.judgeOps(inflight, q, false)
+	if len(e.viols) > 0 {
+		return
+	}
+	if closeNotified(e.sess) {
+		if !budgetLeft {
+			e.inconclusive("budget used up by attempts before the server was back (%d retries of %d announced during the outage): machine too slow for this case", retriesAtUp, sc.Budget)
+			return
+		}
+		seen := "not observable while the port is closed"
+		if sc.Mode != "down" {
+			seen = fmt.Sprint(e.fw.Attempts() - a0)
+		}
+		e.violate("session-ended-with-budget-left", "the session ended (close notification fired, status=%s) although the server was reachable again when the dialer had announced only %d of its %d retries (RedialTimes=%d, DialTimeout %d ms, outage longer than DialTimeout); connection attempts that reached the forwarder in this round: %s, of %d allowed; attempts since the server was back: %d",
+			statusName(e.sess), retriesAtUp, sc.Budget, sc.Budget, sc.DialTimeoutMs, seen, sc.Budget+1, e.fw.Attempts()-attemptsAtUp)
+		return
+	}
+	e.judgeReconnected(hooksBefore, id0)
 }
 
 // roundBudgetNeverExhausted: in this scenario no redial round can legitimately run out of attempts -
